@@ -286,8 +286,7 @@ def run(ctx):
     ctx.cov['traces_validated_against_impl'] = len(ccases) + len(rcases)
     ctx.cov['correspondence_disagreements'] = nbad
     complex_certificates(ctx, ctx.n(60, 600))
-    if ctx.broken or ctx.thorough:
-        search(ctx, ctx.n(300, 3000))
+    search(ctx, ctx.n(300, 3000) if (ctx.broken or ctx.thorough) else 60)     # a small always-on search; larger when something is broken
     ctx.assumptions += ['the rule (first row of pinv of the r-matrix) is an oracle: its residual |w.R - e_0| is certified in exact rationals each run; numerically singular configurations are counted and excluded (the property excludes nothing here, but pinv truncation is LAPACK\'s)',
                         'scipy.ndimage.convolve1d is modelled as documented (reflect, origin, symmetric fast paths) and validated bit-exactly; complex sequences/ratios are covered by the sweep only']
     return ctx.finish(level='proof', checker_cmd='make -C coq Props/C07.vo + coqc build/cases/C07_*.v',
